@@ -7,10 +7,13 @@ package main
 // deadlines / cancellations and a scripted service that answers, fails or hangs.
 
 import (
+	"bytes"
 	"context"
 	"encoding/json"
 	"errors"
 	"fmt"
+	"io"
+	"net/http"
 	"sort"
 	"sync"
 	"testing"
@@ -31,7 +34,7 @@ type c16Caller struct {
 }
 
 type c16Script struct {
-	Kind  string `json:"kind"` // ans | fail | hang
+	Kind  string `json:"kind"` // ans | fail | hang; over HTTP also: deny (403) | notfound (404) | notmod (304) | garbage (200, undecodable); fail = 500
 	Delay int64  `json:"delay,omitempty"`
 	Tok   int    `json:"tok,omitempty"`
 }
@@ -51,12 +54,76 @@ type c16Input struct {
 	EP2     int         `json:"ep2,omitempty"`    // late: entry point of the caller that overtakes (0 = nobody)
 	Change  bool        `json:"change,omitempty"` // late: the service activates a new version before the held caller is released
 	CFail   bool        `json:"cfail,omitempty"`  // policy: the cache refuses every write made after construction
+	HTTP    bool        `json:"http,omitempty"`   // the store talks to the service through the real setec.Client over a scripted HTTP transport
+	Polls   []c16Script `json:"polls,omitempty"`  // pollh: the HTTP answer to the conditional get of "a", "b" (in this order)
 	Flights []c16Flight `json:"flights,omitempty"`
 }
 
 type c16Key struct{}
 
 var c16ErrService = errors.New("scripted service failure")
+
+// what the scripted service did with a request that it failed (kind = the script's kind); Is(c16ErrService)
+type c16SvcErr struct{ kind string }
+
+func (e *c16SvcErr) Error() string        { return "scripted service failure: " + e.kind }
+func (e *c16SvcErr) Is(target error) bool { return target == c16ErrService }
+
+// ---- the REAL network client over a scripted HTTP transport: the scripted service's outcome is
+// turned into an HTTP response (or a transport error when the request's context ended), and
+// client/setec/client.go turns that back into a value or a sentinel error
+
+func c16Transport(svc *c16Svc) func(*http.Request) (*http.Response, error) {
+	reply := func(code int, body string) (*http.Response, error) {
+		return &http.Response{StatusCode: code, Status: fmt.Sprintf("%d %s", code, http.StatusText(code)), Header: http.Header{},
+			Body: io.NopCloser(bytes.NewReader([]byte(body)))}, nil
+	}
+	return func(req *http.Request) (*http.Response, error) {
+		var gr api.GetRequest
+		if req.Body == nil || json.NewDecoder(req.Body).Decode(&gr) != nil || req.URL.Path != "/api/get" {
+			return reply(400, "bad request")
+		}
+		var sv *api.SecretValue
+		var err error
+		if gr.UpdateIfChanged {
+			sv, err = svc.GetIfChanged(req.Context(), gr.Name, gr.Version)
+		} else {
+			sv, err = svc.Get(req.Context(), gr.Name)
+		}
+		var se *c16SvcErr
+		switch {
+		case err == nil:
+			bs, _ := json.Marshal(sv)
+			return reply(200, string(bs))
+		case errors.As(err, &se):
+			switch se.kind {
+			case "deny":
+				return reply(403, "access denied")
+			case "notfound":
+				return reply(404, "not found")
+			case "notmod":
+				return reply(304, "")
+			case "garbage":
+				return reply(200, "{{{ this is not JSON")
+			}
+			return reply(500, "internal error")
+		case errors.Is(err, api.ErrNotFound):
+			return reply(404, "not found")
+		case errors.Is(err, api.ErrValueNotChanged):
+			return reply(304, "")
+		case req.Context().Err() != nil:
+			return nil, req.Context().Err() // what net/http reports when the request's context ends
+		}
+		return reply(500, "internal error")
+	}
+}
+
+func c16ClientFor(svc *c16Svc, overHTTP bool) setec.StoreClient {
+	if overHTTP {
+		return setec.Client{Server: "http://setec.invalid", DoHTTP: c16Transport(svc)}
+	}
+	return svc
+}
 
 func c16Value(name string, tok int) []byte { return []byte(fmt.Sprintf("val-%s-%d", name, tok)) }
 func c16Tok(b []byte) int {
@@ -170,6 +237,7 @@ type c16Svc struct {
 	nget    int
 	logging bool
 	probe   bool // after the scenario: every Get is counted and answered "not found" at once
+	after   bool // during the final Refresh: a plain Get is a poll request (version 0), answered at once
 }
 
 func (s *c16Svc) ms() int64 { return time.Since(s.t0).Milliseconds() }
@@ -179,6 +247,15 @@ func (s *c16Svc) Get(ctx context.Context, name string) (*api.SecretValue, error)
 	s.nget++
 	if sv, ok := s.static[name]; ok {
 		s.mu.Unlock()
+		return &api.SecretValue{Value: c16Value(name, sv.tok), Version: api.SecretVersion(sv.ver)}, nil
+	}
+	if s.after {
+		s.polled[name] = true
+		sv, ok := s.vals[name]
+		s.mu.Unlock()
+		if !ok {
+			return nil, api.ErrNotFound
+		}
 		return &api.SecretValue{Value: c16Value(name, sv.tok), Version: api.SecretVersion(sv.ver)}, nil
 	}
 	if !s.logging || s.probe {
@@ -218,7 +295,7 @@ func (s *c16Svc) Get(ctx context.Context, name string) (*api.SecretValue, error)
 			if sc.Kind == "ans" {
 				out = "OAnswered"
 			} else {
-				out, err = "OFailed", c16ErrService
+				out, err = "OFailed", &c16SvcErr{kind: sc.Kind}
 			}
 		case <-ctx.Done():
 			tm.Stop()
@@ -359,7 +436,7 @@ func c16Policy(t *testing.T, in c16Input) Record {
 		ctx, cancel := context.WithCancel(context.Background())
 		defer cancel()
 		cache := &c16Cache{failFor: map[string]int{}}
-		st, err := setec.NewStore(ctx, setec.StoreConfig{Client: svc, Secrets: []string{"a"}, AllowLookup: in.Allow,
+		st, err := setec.NewStore(ctx, setec.StoreConfig{Client: c16ClientFor(svc, in.HTTP), Secrets: []string{"a"}, AllowLookup: in.Allow,
 			PollInterval: -1, Cache: cache, Logf: func(string, ...any) {}})
 		if err != nil {
 			cls = 9
@@ -427,9 +504,12 @@ func c16Policy(t *testing.T, in c16Input) Record {
 	if in.CFail {
 		tags = append(tags, "policy-cache-refuses")
 	}
+	if in.HTTP {
+		tags = append(tags, "policy-over-real-client")
+	}
 	rec := Record{Kind: "policy", Input: in, Obs: map[string]any{"class": cls, "requests": nreq, "token": tok,
 		"secret_after": aSecret, "requests_of_second_lookup": nreq2, "polled_after": aPolled, "cached_after": aCached},
-		Key: fmt.Sprintf("policy:%v:%d:%s:%v", in.Allow, in.EP, in.Name, in.CFail), Nontrivial: in.Name != "a",
+		Key: fmt.Sprintf("policy:%v:%d:%s:%v:%v", in.Allow, in.EP, in.Name, in.CFail, in.HTTP), Nontrivial: in.Name != "a",
 		Tags: tags,
 		Coq: c16RenderPolicy(in, svcHas, cls, nreq, tok, aSecret, nreq2, aPolled, aCached)}
 	return rec
@@ -577,7 +657,7 @@ func c16RunFlights(t *testing.T, in c16Input) []c16FlightObs {
 		for _, f := range in.Flights {
 			cache.failFor[f.Name] = f.CacheFail
 		}
-		st, err := setec.NewStore(ctx, setec.StoreConfig{Client: svc, Secrets: []string{"a"}, AllowLookup: true,
+		st, err := setec.NewStore(ctx, setec.StoreConfig{Client: c16ClientFor(svc, in.HTTP), Secrets: []string{"a"}, AllowLookup: true,
 			PollInterval: -1, Cache: cache, Logf: func(string, ...any) {}})
 		if err != nil {
 			return
@@ -631,6 +711,10 @@ func c16RunFlights(t *testing.T, in c16Input) []c16FlightObs {
 							r.Class = 2
 						case errors.Is(err, context.Canceled):
 							r.Class = 3
+						case in.HTTP:
+							// through the real client the service's failure arrives as a sentinel (not found, access
+							// denied, not changed) or as "request returned status ..." / a decoding error
+							r.Class = 1
 						}
 					}()
 					r.T = svc.ms()
@@ -651,9 +735,15 @@ func c16RunFlights(t *testing.T, in c16Input) []c16FlightObs {
 			obs[fi].Solo = len(in.Flights) == 1
 			obs[fi].FlSeen, obs[fi].FlOK, obs[fi].FlTok, obs[fi].FlCached = cache.firstWith(f.Name)
 		}
+		// the scenario proper is over: from here on the service answers every plain Get at once (the real
+		// client turns a conditional get for version 0 into a plain Get - a poll request all the same)
+		svc.mu.Lock()
+		svc.after = true
+		svc.mu.Unlock()
 		st.Refresh(ctx)
 		// one more LookupSecret per name: does it send a request?  (answered "not found" at once)
 		svc.mu.Lock()
+		svc.after = false
 		svc.probe = true
 		svc.mu.Unlock()
 		for fi, f := range in.Flights {
@@ -689,12 +779,36 @@ func c16CoqOptN(x int64) string {
 }
 
 func c16RenderFlight(f c16Flight, o c16FlightObs) (string, int) {
+	return c16RenderFlightK(f, o, false)
+}
+
+func c16RenderFlightK(f c16Flight, o c16FlightObs, overHTTP bool) (string, int) {
 	cs := make([]string, len(f.Callers))
 	for i, c := range f.Callers {
 		cs[i] = fmt.Sprintf("C %d %s %s", c.Arr, c16CoqOptN(c.Dl), c16CoqOptN(c.Cn))
 	}
 	sc := make([]string, len(f.Scripts))
 	for i, s := range f.Scripts {
+		if overHTTP {
+			// the HTTP response the transport gives (the kernel maps it with client.go's modelled status map)
+			switch s.Kind {
+			case "ans":
+				sc[i] = fmt.Sprintf("HResp %d 200 (Some (%d, %d))", s.Delay, i+1, s.Tok)
+			case "fail":
+				sc[i] = fmt.Sprintf("HResp %d 500 None", s.Delay)
+			case "deny":
+				sc[i] = fmt.Sprintf("HResp %d 403 None", s.Delay)
+			case "notfound":
+				sc[i] = fmt.Sprintf("HResp %d 404 None", s.Delay)
+			case "notmod":
+				sc[i] = fmt.Sprintf("HResp %d 304 None", s.Delay)
+			case "garbage":
+				sc[i] = fmt.Sprintf("HResp %d 200 None", s.Delay)
+			default:
+				sc[i] = "HHang"
+			}
+			continue
+		}
 		switch s.Kind {
 		case "ans":
 			sc[i] = fmt.Sprintf("SAns %d %d %d", s.Delay, i+1, s.Tok)
@@ -732,7 +846,11 @@ func c16RenderFlight(f c16Flight, o c16FlightObs) (string, int) {
 	for i := range sc {
 		sc[i] = "(" + sc[i] + ")"
 	}
-	return fmt.Sprintf("CFlight %s %s %s %s %s %s %s %d %s %s %s", c16Decl, coqBytes([]byte(f.Name)), coqList(cs), coqList(sc),
+	ctor := "CFlight"
+	if overHTTP {
+		ctor = "CFlightH"
+	}
+	return fmt.Sprintf(ctor+" %s %s %s %s %s %s %s %d %s %s %s", c16Decl, coqBytes([]byte(f.Name)), coqList(cs), coqList(sc),
 		coqList(wins), coqList(res), coqList(lg), o.MaxConc, coqBool(o.Secret), coqBool(o.Polled), coqBool(o.Cached)) +
 		fmt.Sprintf(" %s %s %s %d %s %s", coqBool(o.Solo), coqBool(o.FlSeen), coqBool(o.FlOK), o.FlTok, coqBool(o.FlCached), coqBool(o.AfterReq)), retries
 }
@@ -745,7 +863,7 @@ func c16Flights(t *testing.T, in c16Input) []Record {
 	obs := c16RunFlights(t, in)
 	var recs []Record
 	for fi, f := range in.Flights {
-		coq, retries := c16RenderFlight(f, obs[fi])
+		coq, retries := c16RenderFlightK(f, obs[fi], in.HTTP)
 		classes := map[int]bool{}
 		for _, r := range obs[fi].Results {
 			classes[r.Class] = true
@@ -772,7 +890,16 @@ func c16Flights(t *testing.T, in c16Input) []Record {
 		if obs[fi].FlSeen && obs[fi].FlOK {
 			tags = append(tags, "lookup-flush-landed")
 		}
-		one := c16Input{Kind: "flight", Flights: in.Flights}
+		if in.HTTP {
+			tags = append(tags, "over-real-client")
+			for _, sc := range f.Scripts {
+				if sc.Kind != "hang" && sc.Delay > 30000 {
+					tags = append(tags, "real-client-slow-answer>30s")
+					break
+				}
+			}
+		}
+		one := c16Input{Kind: "flight", Flights: in.Flights, HTTP: in.HTTP}
 		rec := Record{Kind: "flight", Input: one, Obs: obs[fi], Key: coq, Nontrivial: len(f.Callers) >= 2 && len(classes) >= 2,
 			Tags: tags, Coq: coq}
 		if obs[fi].FlSeen && !obs[fi].FlOK {
@@ -786,6 +913,144 @@ func c16Flights(t *testing.T, in c16Input) []Record {
 		recs = append(recs, rec)
 	}
 	return recs
+}
+
+// ---- one Refresh through the real client: the declared names "a" and "b" are polled; the transport answers
+// each conditional get after a scripted (virtual) delay with 304 / a new version / an error status.  A
+// slow answer must simply be waited for: one request per name.
+
+func c16PollH(t *testing.T, in c16Input) Record {
+	names := []string{"a", "b"}
+	nreq := map[string]int{}
+	vals := map[string]int{}
+	cls, dur := -1, int64(-1)
+	bubble(t, func(t *testing.T) {
+		var mu sync.Mutex
+		polling := false
+		reply := func(code int, body string) (*http.Response, error) {
+			return &http.Response{StatusCode: code, Header: http.Header{}, Body: io.NopCloser(bytes.NewReader([]byte(body)))}, nil
+		}
+		cli := setec.Client{Server: "http://setec.invalid", DoHTTP: func(req *http.Request) (*http.Response, error) {
+			var gr api.GetRequest
+			if json.NewDecoder(req.Body).Decode(&gr) != nil {
+				return reply(400, "bad request")
+			}
+			idx := -1
+			for i, n := range names {
+				if n == gr.Name {
+					idx = i
+				}
+			}
+			mu.Lock()
+			p := polling
+			if p {
+				nreq[gr.Name]++
+			}
+			mu.Unlock()
+			if idx < 0 {
+				return reply(404, "not found")
+			}
+			if !p { // construction: version 1
+				bs, _ := json.Marshal(api.SecretValue{Value: c16Value(gr.Name, 100+idx), Version: 1})
+				return reply(200, string(bs))
+			}
+			sc := c16Script{Kind: "notmod"}
+			if idx < len(in.Polls) {
+				sc = in.Polls[idx]
+			}
+			if sc.Kind == "hang" {
+				<-req.Context().Done()
+				return nil, req.Context().Err()
+			}
+			tm := time.NewTimer(time.Duration(sc.Delay) * time.Millisecond)
+			select {
+			case <-tm.C:
+			case <-req.Context().Done():
+				tm.Stop()
+				return nil, req.Context().Err()
+			}
+			switch sc.Kind {
+			case "ans":
+				bs, _ := json.Marshal(api.SecretValue{Value: c16Value(gr.Name, sc.Tok), Version: 2})
+				return reply(200, string(bs))
+			case "notmod":
+				return reply(304, "")
+			case "deny":
+				return reply(403, "access denied")
+			case "notfound":
+				return reply(404, "not found")
+			case "garbage":
+				return reply(200, "{{{ this is not JSON")
+			}
+			return reply(500, "internal error")
+		}}
+		ctx, cancel := context.WithCancel(context.Background())
+		defer cancel()
+		st, err := setec.NewStore(ctx, setec.StoreConfig{Client: cli, Secrets: names, PollInterval: -1, Logf: func(string, ...any) {}})
+		if err != nil {
+			cls = 9
+			return
+		}
+		defer st.Close()
+		mu.Lock()
+		polling = true
+		mu.Unlock()
+		t0 := time.Now()
+		// a watchdog far beyond every scripted delay, so that an implementation that never finishes shows up
+		// (the context itself has NO deadline, as in the store's own polling loop: nothing but the service
+		// decides how long a request takes)
+		rctx, rcancel := context.WithCancel(ctx)
+		wd := time.AfterFunc(3*time.Hour, rcancel)
+		err = st.Refresh(rctx)
+		wd.Stop()
+		rcancel()
+		dur = time.Since(t0).Milliseconds()
+		cls = 0
+		if err != nil {
+			cls = 1
+		}
+		for _, n := range names {
+			vals[n] = c16Tok(st.Secret(n).Get())
+		}
+	})
+	var ans, nr, vs []string
+	for i, n := range names {
+		sc := c16Script{Kind: "notmod"}
+		if i < len(in.Polls) {
+			sc = in.Polls[i]
+		}
+		h := "HHang"
+		switch sc.Kind {
+		case "ans":
+			h = fmt.Sprintf("(HResp %d 200 (Some (2, %d)))", sc.Delay, sc.Tok)
+		case "notmod":
+			h = fmt.Sprintf("(HResp %d 304 None)", sc.Delay)
+		case "deny":
+			h = fmt.Sprintf("(HResp %d 403 None)", sc.Delay)
+		case "notfound":
+			h = fmt.Sprintf("(HResp %d 404 None)", sc.Delay)
+		case "garbage":
+			h = fmt.Sprintf("(HResp %d 200 None)", sc.Delay)
+		case "fail":
+			h = fmt.Sprintf("(HResp %d 500 None)", sc.Delay)
+		}
+		ans = append(ans, fmt.Sprintf("(%s, %s)", coqBytes([]byte(n)), h))
+		nr = append(nr, fmt.Sprintf("(%s, %d)", coqBytes([]byte(n)), nreq[n]))
+		vs = append(vs, fmt.Sprintf("(%s, %d)", coqBytes([]byte(n)), vals[n]))
+	}
+	coq := fmt.Sprintf("CPollH [([x61], 1, 100);([x62], 1, 101)] %s %d %s %d %s", coqList(ans), cls, coqList(nr), dur, coqList(vs))
+	slow := false
+	for _, sc := range in.Polls {
+		if sc.Delay > 30000 {
+			slow = true
+		}
+	}
+	tags := []string{"poll-over-real-client"}
+	if slow {
+		tags = append(tags, "real-client-slow-answer>30s")
+	}
+	return Record{Kind: "pollh", Input: in, Obs: map[string]any{"class": cls, "requests": nreq, "duration_ms": dur, "tokens": vals},
+		Key: coq, Nontrivial: slow, Tags: tags, Coq: coq}
 }
 
 // ---- generation: all caller instants are distinct multiples of 10 ms; service delays are 5 mod 10,
@@ -873,6 +1138,8 @@ func runC16(o Opts) {
 				recs = []Record{c16Policy(t, in)}
 			} else if in.Kind == "late" {
 				recs = []Record{c16Late(t, in)}
+			} else if in.Kind == "pollh" {
+				recs = []Record{c16PollH(t, in)}
 			} else {
 				recs = c16Flights(t, in)
 			}
@@ -951,6 +1218,97 @@ func runC16(o Opts) {
 				selfSrc = append(selfSrc, recs[0])
 			}
 		}
+		// ---- the same through the REAL network client (client/setec/client.go) over a scripted HTTP transport
+		for _, allow := range []bool{false, true} {
+			for ep := 0; ep < 4; ep++ {
+				for _, name := range []string{"a", "x", "nowhere"} {
+					runOne(c16Input{Kind: "policy", Allow: allow, EP: ep, Name: name, HTTP: true}, false)
+				}
+			}
+		}
+		nh := 120
+		if o.Tier == "thorough" {
+			nh = 2500
+		}
+		if o.N > 0 {
+			nh = o.N / 3
+		}
+		slowDelays := []int64{31005, 45005, 240005, 29995, 60005}
+		var httpSelf []Record
+		for k := 0; k < nh; k++ {
+			r := NewRand(o.Seed, uint64(4600+k))
+			in := c16Input{Kind: "flight", HTTP: true}
+			in.Flights = append(in.Flights, c16GenFlight(r, "x"))
+			if r.IntN(5) == 0 {
+				in.Flights = append(in.Flights, c16GenFlight(r, "y"))
+			}
+			for fi := range in.Flights {
+				f := &in.Flights[fi]
+				for si := range f.Scripts {
+					sc := &f.Scripts[si]
+					d := sc.Delay
+					if d == 0 {
+						d = int64(5 + 10*r.IntN(3000))
+					}
+					if r.IntN(3) == 0 {
+						d = slowDelays[r.IntN(len(slowDelays))]
+					}
+					switch x := r.IntN(100); {
+					case x < 45:
+						*sc = c16Script{Kind: "ans", Delay: d, Tok: 1 + r.IntN(50)}
+					case x < 55:
+						*sc = c16Script{Kind: "fail", Delay: d}
+					case x < 62:
+						*sc = c16Script{Kind: "deny", Delay: d}
+					case x < 70:
+						*sc = c16Script{Kind: "notfound", Delay: d}
+					case x < 75:
+						*sc = c16Script{Kind: "garbage", Delay: d}
+					case x < 78:
+						*sc = c16Script{Kind: "notmod", Delay: d}
+					default:
+						*sc = c16Script{Kind: "hang"}
+					}
+				}
+				if r.IntN(10) < 3 {
+					// one caller without deadline, a service that is merely slow (more than any per-request
+					// timeout a client might think of, less than the five-minute limit)
+					f.Callers = f.Callers[:1]
+					f.Callers[0].Dl, f.Callers[0].Cn = 0, 0
+					kind := "ans"
+					if r.IntN(4) == 0 {
+						kind = []string{"fail", "notfound", "deny"}[r.IntN(3)]
+					}
+					f.Scripts[0] = c16Script{Kind: kind, Delay: slowDelays[r.IntN(3)], Tok: 1 + r.IntN(50)}
+				}
+			}
+			recs := runOne(in, false)
+			if len(httpSelf) < 3 && k%13 == 4 {
+				httpSelf = append(httpSelf, recs[0])
+			}
+		}
+		// Refresh-driven polls through the real client: slow answers, new values, error statuses
+		for _, d := range []int64{505, 31005, 45005, 240005} {
+			for _, ka := range []string{"notmod", "ans", "fail", "notfound"} {
+				for _, kb := range []string{"notmod", "ans"} {
+					if (ka == "fail" || ka == "notfound") && d == 240005 {
+						continue
+					}
+					runOne(c16Input{Kind: "pollh", HTTP: true, Polls: []c16Script{{Kind: ka, Delay: d, Tok: 7}, {Kind: kb, Delay: 1005, Tok: 8}}}, false)
+				}
+			}
+		}
+		// self-test for the cases over the real client: a caller that returned at another instant
+		for _, rec := range httpSelf {
+			st := rec
+			st.SelfTest, st.SelfOf = true, rec.ID
+			in := rec.Input.(c16Input)
+			ob := rec.Obs.(c16FlightObs)
+			ob.Results = append([]c16Res(nil), ob.Results...)
+			ob.Results[0].T += 30000
+			st.Coq, _ = c16RenderFlightK(in.Flights[0], ob, true)
+			out.Emit(st)
+		}
 		// the service answers the first request while the cache refuses the lookup's flush (or not)
 		nc := 80
 		if o.Tier == "thorough" {
@@ -1009,7 +1367,7 @@ func runC16(o Opts) {
 				default:
 					ob.FlTok++ // the document offered to the cache carries other bytes
 				}
-				st.Coq, _ = c16RenderFlight(in.Flights[fi], ob)
+				st.Coq, _ = c16RenderFlightK(in.Flights[fi], ob, in.HTTP)
 			}
 			out.Emit(st)
 		}
@@ -1037,7 +1395,7 @@ func runC16(o Opts) {
 				default:
 					ob2.Secret = !ob.Secret // Secret(name) afterwards
 				}
-				st.Coq, _ = c16RenderFlight(in.Flights[0], ob2)
+				st.Coq, _ = c16RenderFlightK(in.Flights[0], ob2, in.HTTP)
 			}
 			out.Emit(st)
 		}
